@@ -3,7 +3,7 @@
 P="$1"; ID="$2"; TIER="${3:-quick}"; W=/tmp/mtw_$$
 git -C /repo worktree add -q --detach "$W" HEAD || { echo WORKTREE-FAILED; exit 3; }
 (cd "$W" && git apply "$P") || { echo APPLY-FAILED; git -C /repo worktree remove --force "$W"; exit 3; }
-cd /verif && VERIF_REPO="$W" ./check "$ID" --tier "$TIER" > /tmp/mutest_$$.log 2>&1; RC=$?
+cd "${VERIF_DIR:-/verif}" && VERIF_REPO="$W" ./check "$ID" --tier "$TIER" > /tmp/mutest_$$.log 2>&1; RC=$?
 git -C /repo worktree remove --force "$W"
 echo "exit=$RC $(grep -c '^VIOLATION' /tmp/mutest_$$.log) violations; $(grep '^VIOLATION' /tmp/mutest_$$.log | head -2 | cut -c1-220)"
 [ $RC = 2 ] && tail -5 /tmp/mutest_$$.log
